@@ -1,7 +1,7 @@
 #!/bin/bash
-# tools/seedbatch.sh <root> <ID>... : evaluates <root>/<ID>/SEED/{A,B} with seedcheck and prints compact results
+# tools/seedbatch.sh <root> <ID>... : evaluates <root>/<ID>/SEED/{A,B,C} with seedcheck and prints compact results
 ROOT=$1; shift
-for id in "$@"; do for v in A B; do
+for id in "$@"; do for v in A B C; do
   sd=$ROOT/$id/SEED/$v; [ -f $sd/patch.diff ] || continue
   out=$(tools/seedcheck.sh $id $sd 2>&1)
   suite=$(echo "$out" | grep -c "^FAIL\|^--- FAIL" )
